@@ -17,7 +17,8 @@ EXPLANATION = (
     'discarded; (DOF) dof derives from the grouping descriptors; (RNG) randomness only from re-seedable np.random '
     'module functions, no clock/uuid/unseeded generators, no set-order dependence; (SIB) the three eval_bootstrap* '
     'routines put the same quantities into the covariance; (FWD) Result receives evaluations, ceilings, variances, dof. '
-    'Numeric equality of stored values with a recomputation and the n_cv correction formula are NOT decided.')
+    'Numeric equality of stored values with a recomputation and the n_cv correction formula are NOT decided.'
+    ' Also: (LOOP-SHADOW) a loop target does not take the name of the collection it iterates (fitter list in crossval).')
 ASSUMPTIONS = [
     'bootstrap_sample* return (sample, [rdm_idx,] pattern_idx) as documented; components are tracked per call site',
     'np.random.<fn> module-level functions are the only accepted randomness (re-seedable by np.random.seed)',
